@@ -42,7 +42,9 @@ StartNodes(Nodes, ev) == { j \in DOMAIN Nodes : Nodes[j].ev = ev /\ Nodes[j].sta
 EndNodes(Nodes, ev) == { j \in DOMAIN Nodes : Nodes[j].ev = ev /\ ~Nodes[j].start }
 OneStartOneEnd(R, Nodes) ==
     /\ \A e \in Analysed(R) : Cardinality(StartNodes(Nodes, e.id)) = 1 /\ Cardinality(EndNodes(Nodes, e.id)) = 1
-    /\ \A j \in DOMAIN Nodes : \E e \in Analysed(R) : e.id = Nodes[j].ev
+    \* every node belongs to an event of the window, and an event with any node has exactly one of each kind
+    /\ \A j \in DOMAIN Nodes : HasRow(R, Nodes[j].ev)
+    /\ \A j \in DOMAIN Nodes : Cardinality(StartNodes(Nodes, Nodes[j].ev)) = 1 /\ Cardinality(EndNodes(Nodes, Nodes[j].ev)) = 1
 NodeTimes(R, Nodes) ==
     \A j \in DOMAIN Nodes : HasRow(R, Nodes[j].ev) =>
         LET e == EvOf(R, Nodes[j].ev) IN Nodes[j].ts = IF Nodes[j].start THEN e.ts ELSE End(e)
